@@ -124,15 +124,21 @@ theorem FS.apply_keepsTmp1 (fs : FS) (op : FsOp) (h : op.keepsTmp1 = true) : (fs
     cases s <;> cases d <;> simp_all [FsOp.keepsTmp1, FS.apply, FS.set, FS.get] <;> split <;> simp_all
   | remove f => cases f <;> simp_all [FsOp.keepsTmp1, FS.apply, FS.set]
 
-theorem serializeOps_keepsTmp1 (pieces : List Bytes) (fail : Bool) : ∀ op ∈ serializeOps pieces fail, op.keepsTmp1 = true := by
+theorem dumpWriteOps_keepsTmp1 (pieces : List Bytes) (fail : Bool) : ∀ op ∈ dumpWriteOps pieces fail, op.keepsTmp1 = true := by
   intro op h
-  simp only [serializeOps, List.mem_append, List.mem_singleton, List.mem_map] at h
+  simp only [dumpWriteOps, List.mem_append, List.mem_singleton, List.mem_map] at h
   rcases h with ((h | ⟨p, _, h⟩) | h) | h
   · subst h; simp [FsOp.keepsTmp1]
   · subst h; simp [FsOp.keepsTmp1]
   · subst h; simp [FsOp.keepsTmp1]
   · cases fail <;> simp at h
     subst h; simp [FsOp.keepsTmp1]
+
+theorem serializeOps_keepsTmp1 (pieces : List Bytes) (fail : Bool) : ∀ op ∈ serializeOps pieces fail, op.keepsTmp1 = true := by
+  intro op h
+  rcases List.mem_cons.mp h with h | h
+  · subst h; simp [FsOp.keepsTmp1]
+  · exact dumpWriteOps_keepsTmp1 pieces fail op h
 
 def Ser.childOk (s : Ser) : Prop := ∀ c, s.child = some c → ∀ op ∈ c.ops, op.keepsTmp1 = true
 
@@ -148,18 +154,19 @@ theorem serialize_frame (s : Ser) (id : Nat) (pieces : List Bytes) (fail : Bool)
     | memory =>
       cases fail <;> simp [FS.set, Ser.childOk]
     | file =>
+      have hrm : (s.fs.apply (.remove .tmp)).tmp1 = s.fs.tmp1 := by simp [FS.apply, FS.set]
       by_cases hf : s.fork = true
       · simp only [hf, if_true]
-        refine ⟨by simp, by simp, by simp, by simp, ?_⟩
+        refine ⟨by simp, by simp, by simp, by simpa using hrm, ?_⟩
         intro _ c hc op hop
         simp at hc
         subst hc
-        exact serializeOps_keepsTmp1 pieces fail op hop
+        exact dumpWriteOps_keepsTmp1 pieces fail op hop
       · simp only [hf]
         refine ⟨by simp, by simp, by simp, ?_, fun h => by simpa [Ser.childOk] using h⟩
         cases fail
-        · exact (FS.run_serializeOps_ok s.fs pieces).2.2
-        · exact (FS.run_serializeOps_fail s.fs pieces).2
+        · exact (FS.run_dumpWriteOps_ok _ pieces).2.2.trans hrm
+        · exact (FS.run_dumpWriteOps_fail _ pieces).2.trans hrm
 
 theorem check_frame (s : Ser) (ck : Option Status) :
     (s.checkSerializing ck).1.batch = s.batch ∧ (s.checkSerializing ck).1.fs = s.fs ∧
@@ -826,7 +833,8 @@ theorem forkWF_serialize (s : Ser) (id : Nat) (pieces : List Bytes) (fail : Bool
   obtain ⟨hm, hf, hp⟩ := h
   by_cases hidle : s.pid = .idle
   · have : (s.serialize id pieces fail).1 =
-        { s with curId := id, pid := .child, child := some ⟨serializeOps pieces fail, !fail⟩ } := by
+        { s with curId := id, fs := s.fs.apply (.remove .tmp), orphLinked := false, pid := .child,
+                 child := some ⟨dumpWriteOps pieces fail, !fail⟩ } := by
       simp [Ser.serialize, hidle, hm, hf]
     rw [this]; exact ⟨hm, hf, Or.inr rfl⟩
   · have : (s.serialize id pieces fail).1 = s := by simp [Ser.serialize, hidle]
@@ -939,5 +947,97 @@ theorem deliver_store (l : Link) (fin : Option Bool) (h : Inv l) :
     cases fin with
     | none => rfl
     | some a => cases a <;> simp_all [Ev.mayStore]
+
+end PSO.Serializer
+
+namespace PSO.Serializer
+
+-- ------------------------------------------------------------------------------------------------
+-- D84: the orphaned dump writer of an earlier incarnation
+-- ------------------------------------------------------------------------------------------------
+
+/-- all an orphan still does: write to / close the file it holds open -/
+def FsOp.orphanish : FsOp → Bool
+  | .write .tmp _ => true
+  | .close .tmp => true
+  | _ => false
+
+def Ser.orphanOk (s : Ser) : Prop := ∀ ops, s.orphan = some ops → ∀ op ∈ ops, op.orphanish = true
+
+theorem orphanish_safe (op : FsOp) (h : op.orphanish = true) : op.safe = true ∧ op.keepsTmp1 = true := by
+  cases op with
+  | write f b => cases f <;> simp_all [FsOp.orphanish, FsOp.safe, FsOp.keepsTmp1]
+  | close f => cases f <;> simp_all [FsOp.orphanish, FsOp.safe, FsOp.keepsTmp1]
+  | openW f => simp [FsOp.orphanish] at h
+  | rename a b => simp [FsOp.orphanish] at h
+  | remove f => simp [FsOp.orphanish] at h
+
+/-- a restart (= the node was killed) leaves at most an orphan that only writes and closes -/
+theorem restart_orphanOk (s : Ser) (h : s.orphanOk) : s.restart.orphanOk := by
+  intro ops hops op hop
+  unfold Ser.restart at hops
+  simp only at hops
+  cases hm : s.mode with
+  | memory => rw [hm] at hops; exact h ops (by simpa using hops) op hop
+  | file =>
+    rw [hm] at hops
+    cases hc : s.child with
+    | none => rw [hc] at hops; exact h ops (by simpa using hops) op hop
+    | some c =>
+      obtain ⟨cops, ok⟩ := c
+      rw [hc] at hops
+      simp only at hops
+      split at hops
+      · cases hops
+      · simp only [Option.some.injEq] at hops
+        subst hops
+        have := (List.mem_filter.mp hop).2
+        cases op with
+        | write f b => cases f <;> simp_all [FsOp.orphanish]
+        | close f => cases f <;> simp_all [FsOp.orphanish]
+        | openW f => simp at this
+        | rename a b => simp at this
+        | remove f => simp at this
+
+theorem orphanStep_frame (s : Ser) (h : s.orphanOk) :
+    s.orphanStep.fs.dump = s.fs.dump ∧ s.orphanStep.fs.tmp1 = s.fs.tmp1 ∧ s.orphanStep.orphanOk ∧
+    s.orphanStep.orphLinked = s.orphLinked ∧ (s.orphLinked = false → s.orphanStep.fs = s.fs) := by
+  unfold Ser.orphanStep
+  cases ho : s.orphan with
+  | none => exact ⟨rfl, rfl, h, rfl, fun _ => rfl⟩
+  | some ops =>
+    cases ops with
+    | nil => simp only; exact ⟨rfl, rfl, h, rfl, fun _ => rfl⟩
+    | cons op rest =>
+      have hop := orphanish_safe op (h _ ho op (List.mem_cons_self ..))
+      refine ⟨?_, ?_, ?_, rfl, ?_⟩
+      · simp only; split
+        · exact FS.apply_safe_dump _ _ hop.1
+        · rfl
+      · simp only; split
+        · exact FS.apply_keepsTmp1 _ _ hop.2
+        · rfl
+      · intro ops' h' op' hop'
+        simp at h'
+        subst h'
+        exact h _ ho op' (List.mem_cons_of_mem _ hop')
+      · intro hl; simp [hl]
+
+theorem orphanRun_frame (n : Nat) : ∀ (s : Ser), s.orphanOk →
+    (s.orphanRun n).fs.dump = s.fs.dump ∧ (s.orphLinked = false → (s.orphanRun n).fs = s.fs) := by
+  induction n with
+  | zero => intro s _; exact ⟨rfl, fun _ => rfl⟩
+  | succ n ih =>
+    intro s h
+    obtain ⟨h1, _, h3, h4, h5⟩ := orphanStep_frame s h
+    have := ih s.orphanStep h3
+    refine ⟨this.1.trans h1, fun hl => ?_⟩
+    exact (this.2 (h4.trans hl)).trans (h5 hl)
+
+/-- a new dump (`serialize` in file mode on an idle serializer) unlinks the file the orphan holds -/
+theorem serialize_unlinks_orphan (s : Ser) (id : Nat) (pieces : List Bytes) (fail : Bool)
+    (hm : s.mode = .file) (hp : s.pid = .idle) :
+    (s.serialize id pieces fail).1.orphLinked = false ∧ (s.serialize id pieces fail).1.orphan = s.orphan := by
+  cases hf : s.fork <;> simp [Ser.serialize, hm, hp, hf]
 
 end PSO.Serializer
